@@ -138,3 +138,11 @@ C("C01", "exploration",
   "never direct. Tolerances per conditioning class (DESIGN C01); open findings K4, K5, K6, K10 are identified by region tags.",
   "RK4 marcher (4000/6000 steps) is the trusted reference; Basic tracer tolerances are 3x calibrated lattice-wide maxima (it is a coarse "
   "integrator); a defect below the stated tolerance is not detected", "DESIGN.md §4 C01")
+C("C02", "model_checking",
+  "explicit-state BFS over the orbit graph of endpoint pairs under {swap, two translations, rotations by 90/180/37 degrees}, edge relation checked with the real tracers on every edge",
+  "Base geometries (depth pairs x separations, origin offset, non-axis-aligned azimuth) for the Specialized and Basic(dz=1) tracers, the Uniform "
+  "tracer with 0..3 reflections and two Layered stacks; BFS to depth 2 over six generators, states merged by coordinates. On every edge: same "
+  "number of solutions; swap: equal path length, time of flight, attenuation at 100/500 MHz, emitted = -received' and received = -emitted'; "
+  "translation/rotation: equal lengths/times/attenuations, directions rotated with the geometry; exists == non-empty; gradient tracers "
+  "report 0 or 2 solutions. Solutions are matched across an edge by time of flight and direction. Open finding K4b (near-vertical).",
+  "tolerances: exact generators 1e-9 (Specialized 1e-6: root finding), swap 2e-6, attenuation in log space", "DESIGN.md §4 C02")
